@@ -20,7 +20,7 @@ def outcomeStr : Outcome → String
   | .incomplete => "incomplete"
   | .reject400 => s!"reject client={hex (firstLine Px.Gen.pkt_BAD_REQUEST_RESPONSE_PKT)} connect=None"
   | .closeSilent => "close client=- connect=None"
-  | .raisedUnicode => "raised unicode client=- connect=None"
+  | .reject502 => s!"reject client={hex (firstLine Px.Gen.pkt_BAD_GATEWAY_RESPONSE_PKT)} connect=None"
   | .connected a tunnel line =>
     if tunnel then
       s!"tunnel client={hex (firstLine Px.Gen.pkt_PROXY_TUNNEL_ESTABLISHED_RESPONSE_PKT)} connect={hex a.host}:{a.port} upstream=-"
